@@ -29,13 +29,16 @@ enum PossiblyUnknown<T> {
 
 impl<'de, T> Deserialize<'de> for PossiblyUnknown<T>
 where
-    T: Deserialize<'de>,
+    T: serde::de::DeserializeOwned,
 {
     fn deserialize<D>(de: D) -> Result<Self, D::Error>
     where
         D: Deserializer<'de>,
     {
-        Ok(match T::deserialize(de) {
+        // Read the element as a generic value first: input that is malformed or ends early must
+        // stay an error, only a well-formed element that is not a `T` is to be ignored.
+        let value = ciborium::value::Value::deserialize(de)?;
+        Ok(match value.deserialized::<T>() {
             Ok(val) => Self::Some(val),
             Err(_) => Self::None,
         })
@@ -45,13 +48,13 @@ where
 pub(crate) fn ignore_unknown_opt_vec<'de, D, T>(de: D) -> Result<Option<Vec<T>>, D::Error>
 where
     D: Deserializer<'de>,
-    T: Deserialize<'de> + std::fmt::Debug,
+    T: serde::de::DeserializeOwned + std::fmt::Debug,
 {
     struct IgnoreUnknown<T>(std::marker::PhantomData<T>);
 
     impl<'d, T> Visitor<'d> for IgnoreUnknown<T>
     where
-        T: Deserialize<'d> + std::fmt::Debug,
+        T: serde::de::DeserializeOwned + std::fmt::Debug,
     {
         type Value = Option<Vec<T>>;
 
@@ -86,7 +89,7 @@ where
 pub(crate) fn ignore_unknown_vec<'de, D, T>(de: D) -> Result<Vec<T>, D::Error>
 where
     D: Deserializer<'de>,
-    T: Deserialize<'de> + std::fmt::Debug,
+    T: serde::de::DeserializeOwned + std::fmt::Debug,
 {
     ignore_unknown_opt_vec(de)
         .and_then(|opt| opt.ok_or_else(|| D::Error::custom("Expected a list of types")))
